@@ -164,9 +164,20 @@ def reorgStep (x : Blk) (st : St) : St :=
   let st' := insertHead st x
   { st' with lookup := writeLookups st'.lookup x }
 
+/-- the second half of `reorg`: insert the new chain oldest-first (`foldr`: the lists are newest-first as in Go), delete
+    the canonical number assignments above the new head (fix 4152cc7), delete the lookups of `deleted \ added`. -/
+def reorgApply (s : St) (oldNumber : Nat) (oldChain newChain : List Blk) : St :=
+  let s1 := newChain.foldr reorgStep s
+  let s2 : St :=
+    match newChain with
+    | [] => s1
+    | top :: _ => { s1 with canon := delCanonAbove s1.canon (oldNumber + 1) (top.number + 1) }
+  let deleted := oldChain.flatMap (·.txs)
+  let added := newChain.flatMap (·.txs)
+  { s2 with lookup := delLookups s2.lookup (txDifference deleted added) }
+
 /-- `BlockChain.reorg(oldBlock, newBlock)`.  The two "reduce whoever is higher" loops are written as two calls of
-    `reduce` towards the lower of the two numbers (one of them returns immediately).  `newChain`/`oldChain` are
-    newest-first as in Go; the new chain is inserted oldest-first (`foldr`).  `none` = the Go function returns
+    `reduce` towards the lower of the two numbers (one of them returns immediately).  `none` = the Go function returns
     "invalid old chain"/"invalid new chain" (before writing anything). -/
 def reorg (s : St) (old new : Blk) : Option St :=
   let m := min old.number new.number
@@ -178,53 +189,50 @@ def reorg (s : St) (old new : Blk) : Option St :=
     | some (n, nc1) =>
       match walkBoth s.store (m + 1) o n with
       | none => none
-      | some (_, oc2, nc2) =>
-        let oldChain := oc1 ++ oc2
-        let newChain := nc1 ++ nc2
-        let s1 := newChain.foldr reorgStep s
-        -- fix 4152cc7: delete any canonical number assignments above the new head
-        let s2 : St :=
-          match newChain with
-          | [] => s1
-          | top :: _ => { s1 with canon := delCanonAbove s1.canon (old.number + 1) (top.number + 1) }
-        let deleted := oldChain.flatMap (·.txs)
-        let added := newChain.flatMap (·.txs)
-        some { s2 with lookup := delLookups s2.lookup (txDifference deleted added) }
+      | some (_, oc2, nc2) => some (reorgApply s old.number (oc1 ++ oc2) (nc1 ++ nc2))
 
 /-- the fork-choice rule of `WriteBlockWithState` -/
 def decideReorg (externTd localTd bnum hnum : Nat) (coin : Bool) : Bool :=
   decide (externTd > localTd) || (externTd == localTd && (decide (bnum < hnum) || (bnum == hnum && coin)))
 
-/-- `BlockChain.WriteBlockWithState` for a block that passed validation.  `coin` is `mrand.Float64() < 0.5`. -/
+/-- `WriteBlockWithState`, first part: `hc.WriteTd(block, ptd + difficulty)` and `state.Commit` (an archive node flushes
+    the state to disk at once, otherwise it is referenced in memory). -/
+def afterTd (s : St) (b : Blk) (ptd : Nat) : St :=
+  { s with
+    td := upd s.td b.id (some (ptd + b.diff))
+    hasState := updB s.hasState b.id true
+    onDisk := if s.archive then updB s.onDisk b.id true else s.onDisk }
+
+/-- `WriteBlockWithState`, canonical case, last part: `batch.Write()` (block, receipts, lookups) and `bc.insert(block)`. -/
+def afterCanon (s2 : St) (b : Blk) : St :=
+  insertHead { s2 with
+    store := upd s2.store b.id (some b)
+    receipts := updB s2.receipts b.id true
+    lookup := writeLookups s2.lookup b
+    seen := updB s2.seen b.id true } b
+
+/-- `WriteBlockWithState`, side case: `batch.Write()` (block, receipts); the canonical chain is untouched. -/
+def afterSide (s : St) (b : Blk) (ptd : Nat) : St :=
+  { afterTd s b ptd with
+    store := upd s.store b.id (some b)
+    receipts := updB s.receipts b.id true
+    seen := updB s.seen b.id true }
+
+/-- `BlockChain.WriteBlockWithState` for a block that passed validation.  `coin` is `mrand.Float64() < 0.5`.
+    If `reorg` fails the function returns its error: the batch holding the block is never written (the td record and
+    the committed state stay). -/
 def writeBlockWithState (s : St) (b : Blk) (coin : Bool) : Out :=
   match s.td b.parent with
   | none => ⟨s, some .unknownAncestor⟩
   | some ptd =>
     match s.store s.head, s.td s.head with
     | some cur, some localTd =>
-      let externTd := ptd + b.diff
-      -- hc.WriteTd; state.Commit (archive: flushed to disk at once, otherwise referenced in memory)
-      let s1 : St := { s with
-        td := upd s.td b.id (some externTd)
-        hasState := updB s.hasState b.id true
-        onDisk := if s.archive then updB s.onDisk b.id true else s.onDisk }
-      if decideReorg externTd localTd b.number cur.number coin then
-        let r := if b.parent != cur.id then reorg s1 cur b else some s1
-        match r with
-        | none => ⟨s1, some .reorgFail⟩          -- the batch with the block is never written
-        | some s2 =>
-          -- batch.Write(): block, receipts, lookups; then bc.insert(block)
-          let s3 : St := { s2 with
-            store := upd s2.store b.id (some b)
-            receipts := updB s2.receipts b.id true
-            lookup := writeLookups s2.lookup b
-            seen := updB s2.seen b.id true }
-          ⟨insertHead s3 b, none⟩
-      else
-        ⟨{ s1 with
-            store := upd s1.store b.id (some b)
-            receipts := updB s1.receipts b.id true
-            seen := updB s1.seen b.id true }, none⟩
+      let s1 := afterTd s b ptd
+      if decideReorg (ptd + b.diff) localTd b.number cur.number coin then
+        match (if b.parent != cur.id then reorg s1 cur b else some s1) with
+        | none => ⟨s1, some .reorgFail⟩
+        | some s2 => ⟨afterCanon s2 b, none⟩
+      else ⟨afterSide s b ptd, none⟩
     | _, _ => ⟨s, some .modelPanic⟩
 
 /-! ### insertChain2 -/
@@ -532,5 +540,23 @@ structure HSpecInv (s : HSt) : Prop where
   below : ∀ hb, s.store s.hhead = some hb → ∀ n, n ≤ hb.number →
     ∃ x, up s.store (hb.number - n) s.hhead = some x ∧ x.number = n ∧ s.canon n = some x.id ∧ (s.td x.id).isSome = true
   above : ∀ hb, s.store s.hhead = some hb → ∀ n, hb.number < n → s.canon n = none
+
+/-! ### admissible block universes (checked by the driver on every generated tree, used for non-vacuity) -/
+
+/-- the block with hash `k` among `bs` -/
+def mapOf (bs : List Blk) : Map Blk := fun k => bs.find? (fun b => b.id == k)
+
+/-- `x` and its ancestors in `U`, newest first -/
+def ancestry (U : Map Blk) : Nat → Blk → List Blk
+  | 0, _ => []
+  | f + 1, x => x :: (match parentOf U x with
+    | some p => ancestry U f p
+    | none => [])
+
+/-- valid blocks: positive difficulty above height 0, and no transaction twice along one chain -/
+def worldCheck (bs : List Blk) : Bool :=
+  bs.all fun b =>
+    (b.number == 0 || decide (0 < b.diff)) &&
+    decide ((ancestry (mapOf bs) (b.number + 1) b).flatMap (·.txs)).Nodup
 
 end Aqv.Chain
